@@ -1135,6 +1135,22 @@ pub fn leaves() -> Vec<Leaf> {
         l2.prog.push(ins(Mul, &["r0", "q"], &["m"]));
         l2.prog.push(ins(Publish, &["m"], &[]));
         out.push(l2);
+        // long byte strings reduced modulo the group order, observed through a published point
+        // (publishing the scalar itself is the known from_bytes/len>=32 finding)
+        for n in [33usize, 40, 63, 64, 65, 66, 70] {
+            let mut top = vec![0u8; n];
+            top[0] = 3;
+            top[n - 1] = 1;
+            for (l, b) in [("ff", vec![0xffu8; n]), ("pat", pat(n, 11)), ("top", top)] {
+                let mut lm = leaf(&format!("from_bytes/scalar/{n}-{l}-mul"), FromBytes(IrType::JubjubScalar), vec![byt(b)], 1);
+                lm.prog.pop();
+                lm.prog.push(ins(Load(IrType::JubjubPoint), &[], &["q"]));
+                lm.wit.insert("q".into(), Val::Point(if n % 2 == 0 { g5 } else { g }));
+                lm.prog.push(ins(Mul, &["r0", "q"], &["m"]));
+                lm.prog.push(ins(Publish, &["m"], &[]));
+                out.push(lm);
+            }
+        }
         let mut le_p = p.to_bytes_le();
         le_p.resize(32, 0);
         out.push(leaf("from_bytes/native/32-modulus", FromBytes(IrType::Native), vec![byt(le_p)], 1));
